@@ -54,6 +54,8 @@ pub assume_specification [char::to_ascii_lowercase] (c: &char) -> (r: char) ensu
 pub uninterp spec fn utf8_len(s: Seq<char>) -> nat;
 pub assume_specification [String::len] (s: &String) -> (r: usize) ensures r == utf8_len(s@);
 
+pub assume_specification [std::string::String::with_capacity] (n: usize) -> (r: String) ensures r@ == Seq::<char>::empty();
+
 // ---- string wrappers (R3): body IS the original call; only the contract is assumed ----
 #[verifier::external_body]
 pub fn x_make_ascii_lowercase(s: &mut str)
@@ -413,6 +415,22 @@ impl<'a> core::ops::Deref for Cow<'a, str> {
     {
         match self { Cow::Borrowed(b) => b, Cow::Owned(o) => o.as_str() }
     }
+}
+
+// R9: `String: From<Cow<str>>` for the stub Cow (std: the owned text, or a copy of the borrowed text)
+pub uninterp spec fn string_of_cow<'a>(c: Cow<'a, str>) -> String;
+#[verifier::external_body]
+pub broadcast proof fn axiom_string_of_cow<'a>(c: Cow<'a, str>)
+    ensures (#[trigger] string_of_cow(c))@ == c@
+{ }
+impl<'a> vstd::std_specs::convert::FromSpecImpl<Cow<'a, str>> for String {
+    open spec fn obeys_from_spec() -> bool { true }
+    open spec fn from_spec(c: Cow<'a, str>) -> String { string_of_cow(c) }
+}
+impl<'a> From<Cow<'a, str>> for String {
+    #[verifier::external_body]
+    fn from(c: Cow<'a, str>) -> (r: String)
+    { match c { Cow::Borrowed(b) => b.to_string(), Cow::Owned(o) => o } }
 }
 
 // ---- vocabulary for package types (written from C02/C04/C05: letters, digits, '.', '+', '-'; non-empty) ----
